@@ -29,14 +29,10 @@ func (c *cfgGen) objOfKey(key int) int {
 	return -1
 }
 
-func (k *kase) preservedClass() string {
-	if k.badSeen {
-		// narrow class of the known defect: only reachable after a load that failed in
-		// Provision before the upstreams were set up (its Cleanup deletes hosts it never stored)
-		return "host-not-preserved-after-failed-provision"
-	}
-	return "host-not-preserved"
-}
+// preservedClass: a loaded configuration's upstream is not (or no longer) the Host object the
+// pool holds for its key.  (Before fix d6561d4 this happened after a load that failed in
+// Provision before its upstreams were set up; that is now an ordinary violation.)
+func (k *kase) preservedClass() string { return "host-not-preserved" }
 
 func (k *kase) oracleStep(ev string) {
 	k.mu.Lock()
